@@ -58,9 +58,33 @@ def validate_events(rep, pid, gen_args, what_key, heap="6g", max_violations=12):
     for k in rep.known.get("known", []):
         if k.get("property") == pid and k.get("id"):
             env["KNOWN_" + k["id"]] = "1"
-    bad, st, tr, matched = validate_trace("PrayerDayTrace", "PrayerDayTrace.cfg", trace, n, heap=heap, env=env,
-                                          max_violations=max_violations)
-    for fid, idxs in getattr(validate_trace, "known_hits", {}).items():
+    # large traces are validated in chunks (TLC holds the deserialised trace in memory); all events are stateless
+    CH = 100000
+    kh = {}
+    if n > CH:
+        bad, st, tr, matched = [], 0, 0, 0
+        with open(trace) as f:
+            lines = f.readlines()
+        for c0 in range(0, n, CH):
+            part = trace + f".part{c0 // CH}"
+            with open(part, "w") as f:
+                f.writelines(lines[c0:c0 + CH])
+            m = min(CH, n - c0)
+            b, s1, t1, m1 = validate_trace("PrayerDayTrace", "PrayerDayTrace.cfg", part, m, heap=heap, env=env,
+                                           max_violations=max_violations)
+            os.remove(part)
+            for fid, idxs in getattr(validate_trace, "known_hits", {}).items():
+                kh.setdefault(fid, set()).update(c0 + i for i in idxs)
+            bad += [c0 + i for i in b]
+            st, tr, matched = st + s1, tr + t1, matched + m1
+            if len(bad) >= max_violations:
+                break
+        del lines
+    else:
+        bad, st, tr, matched = validate_trace("PrayerDayTrace", "PrayerDayTrace.cfg", trace, n, heap=heap, env=env,
+                                              max_violations=max_violations)
+        kh = getattr(validate_trace, "known_hits", {})
+    for fid, idxs in kh.items():
         k = [x for x in rep.known.get("known", []) if x.get("id") == fid]
         if k:
             rep.known_hits += len(idxs)
